@@ -173,6 +173,16 @@ def config_space():
         out.append((fam, [('a', 'b', [n1, s1])]))
         out.append((fam, [('a', 'b', [n1, n2, s1, s2])]))
         out.append((fam, [('a', 'b', [s2, n1]), ('a', 'c', [n2, s1])]))
+        # entries of one connection whose selectors differ in exactly one dimension (protocol, port, network)
+        for sub, mode in (('host', 'transport'), ('net', 'tunnel')):
+            out.append((fam, [('a', 'b', [entry_spec(fam, 3, sub, 23, 'tcp', mode, 'esp', 100),
+                                          entry_spec(fam, 4, sub, 23, 'udp', mode, 'esp', 200)])]))
+            out.append((fam, [('a', 'b', [entry_spec(fam, None, sub, 0, 'udp', mode, 'esp', 100),
+                                          entry_spec(fam, None, sub, 0, 'tcp', mode, 'esp', 200)])]))
+            out.append((fam, [('a', 'b', [entry_spec(fam, 3, sub, 23, 'tcp', mode, 'esp', 100),
+                                          entry_spec(fam, 4, sub, 53, 'tcp', mode, 'esp', 200)])]))
+        out.append((fam, [('a', 'b', [entry_spec(fam, 3, 'host', 23, 'tcp', 'tunnel', 'esp', 100),
+                                      entry_spec(fam, 4, 'net', 23, 'tcp', 'tunnel', 'esp', 200)])]))
         # networks of the other address family behind the gateways
         out.append((fam, [('a', 'b', [entry_spec(fam, 7, 'net-other', 0, 'tcp', 'tunnel', 'esp', 100)])]))
         out.append((fam, [('a', 'b', [entry_spec(fam, None, 'net-other', 23, 'any', 'tunnel', 'ah', 100), e1])]))
